@@ -304,6 +304,22 @@ func runSQLCol(c *core.Ctx) {
 		good := len(elems) == len(cols)
 		for i, e := range elems {
 			p := an.PathOf(e)
+			// a value the caller computed once and handed in (`pubkeyBin`, the author decoded a single
+			// time for all rows of an event): what the call site passes, with the event it passes
+			// along named as the builder names it
+			if pr, isPar := an.Unwrap(e).(*ssa.Parameter); isPar && pr.Parent() == builder && typeNameOf(pr.Type()) != "Event" && pr.Name() != "eventKey" {
+				evArg, evName := "", ""
+				for j, q := range builder.Params {
+					if typeNameOf(q.Type()) == "Event" && j < len(bcall.Call.Args) {
+						evArg, evName = an.PathOf(bcall.Call.Args[j]), "p:"+q.Name()
+					}
+				}
+				for j, q := range builder.Params {
+					if q == pr && j < len(bcall.Call.Args) && evArg != "" {
+						p = strings.ReplaceAll(an.PathOf(bcall.Call.Args[j]), evArg, evName)
+					}
+				}
+			}
 			got = append(got, clip(p, 60))
 			// a value computed by a module helper: what the helper returns, in the builder's terms
 			if hc, ok := an.Unwrap(e).(*ssa.Call); ok {
@@ -1013,6 +1029,11 @@ func runSQLCond(c *core.Ctx) {
 				if is, nn := nilTest(g.V, filt+"."+row.field); is && g.True == nn {
 					present = true
 				}
+			}
+			// (the #x conditions walked entry by entry without a test in front: an entry exists, so
+			// the condition is present)
+			if !present && row.field == "Tags" && len(x.block.Instrs) > 0 && rangedMapOf(x.block.Instrs[0]) == filt+".Tags" {
+				present = true
 			}
 			// … or behind the same test inside the helper that adds the condition (`if tags == nil { return b }`)
 			if inner := x.occ.In; len(x.occ.Chain) > 0 && inner.Parent() != build {
